@@ -2,7 +2,7 @@
 Tie: the real reducing_adapter over a ygm::map and over a ygm::array (and reduce_by_key_map over a vector
 and a bag) is driven under simmpi by a script generated from the seed: keys colliding in one cache slot,
 contributions from the main program and from handlers, barriers while the adapter is alive and the
-destructor barrier, operators sum / max / xor, layouts 1x4 2x2 2x3 3x2 (intermediate ranks combine), every
+destructor barrier, operators sum / max / xor and min / product / and / signed max over value ranges where T{} is not neutral, layouts 1x4 2x2 2x3 3x2 (intermediate ranks combine), every
 comm routing, buffer 0 and 1 KB, all scheduler policies.  The instrumented value type logs (key, value)
 whenever it is serialised / deserialised; with the comm hooks this gives the label history of every rank,
 which is replayed through YgmVerif.Cache.step: every packed (key, value) must be exactly what the model is
@@ -31,10 +31,30 @@ META = {
             "associative and commutative (stated as hypotheses); reduce_by_key_map's source traversal is compared by result only.",
 }
 
-RULE = ("seeded scripts as in C15 with values 1..50; target map<uint64,V> (hash owner) or array<V> (block owner, length 3*2^20+2000 so that indices "
-        "collide in a cache slot); operator sum/max/xor; a case = (script, target, operator, layout, routing, buffer KB, policy, sim seed); "
+RULE = ("seeded scripts as in C15 with values drawn from 50 per-operator values; target map<uint64,V> (hash owner) or array<V> (block owner, length 3*2^20+2000 so that indices "
+        "collide in a cache slot); operator sum/max/xor and four operators for which the value-initialised T{} is not neutral (min over 10..59, product mod 1000003 over 2..51, bitwise and over values sharing bit 41, signed max over -1..-50; the array is then created with an initial value that is neutral on that range); a case = (script, target, operator, layout, routing, buffer KB, policy, sim seed); "
         "non-trivial = a contribution was issued while the rank was inside a flush's send, or a value was combined at an intermediate rank")
-OPS = {0: lambda a, b: a + b, 1: max, 2: lambda a, b: a ^ b}
+M64 = 1 << 64
+PRIME = 1000003
+
+
+def _signed(x):
+    return x - M64 if x >= (1 << 63) else x
+
+
+# 0..2: the value-initialised T{} = 0 is neutral; 3..6: it is NOT (0 is absorbing for min over positives, product and
+# bitwise-and, and dominates every negative value under signed max), so an implementation that seeds a partial result
+# with T{} instead of the first contributed value is wrong for them
+OPS = {0: lambda a, b: (a + b) % M64, 1: max, 2: lambda a, b: a ^ b,
+       3: min, 4: lambda a, b: (a % PRIME) * (b % PRIME) % PRIME, 5: lambda a, b: a & b,
+       6: lambda a, b: a if _signed(a) > _signed(b) else b}
+OPNAMES = ["sum", "max", "xor", "min-positive", "product-mod-p", "and", "max-negative"]
+# value actually contributed for the generator's v in 1..50
+VMAP = {0: lambda v: v, 1: lambda v: v, 2: lambda v: v,
+        3: lambda v: v + 9,                                          # 10..59
+        4: lambda v: v + 1,                                          # 2..51, never 0 mod p
+        5: lambda v: (1 << 41) | ((v * 2654435761) & 0xFFFFFFFFFF),   # bit 41 always set: the and is never 0
+        6: lambda v: M64 - v}                                        # -1..-50 as two's complement
 NOKEY = (1 << 64) - 1
 
 
@@ -64,17 +84,17 @@ def make_cases(tier, seed):
         case = {"script_seed": g.next() % (1 << 31), "nodes": nodes, "ppn": ppn, "phases": 2 + g.below(2), "nops": nops,
                 "bases": bases, "J": J, "hot": hot, "hpct": [45, 60, 30][g.below(3)], "fwdpct": 40, "vmax": 50,
                 "routing": ROUTINGS[g.below(3)], "buffer_kb": [0, 0, 1][g.below(3)], "policy": POLICIES[i % len(POLICIES)],
-                "sim_seed": 1 + g.below(1 << 20), "mode": target, "op": [0, 0, 1, 2][g.below(4)]}
+                "sim_seed": 1 + g.below(1 << 20), "mode": target, "op": [0, 3, 1, 4, 2, 5, 6, 0][(i + g.below(2)) % 8]}
         if target == "rarr":
             case["len"] = J * S + 2000
         cases.append(case)
     # reduce_by_key_map: main-context contributions only
-    for i in range(4 if tier == "quick" else 16):
+    for i in range(8 if tier == "quick" else 32):
         nodes, ppn = LAYOUTS[i % len(LAYOUTS)]
         cases.append({"script_seed": g.next() % (1 << 31), "nodes": nodes, "ppn": ppn, "phases": 1, "nops": 60, "bases": [5, 77], "J": 4,
                       "hot": 70, "hpct": 0, "fwdpct": 0, "vmax": 50, "routing": ROUTINGS[g.below(3)], "buffer_kb": [0, 1][g.below(2)],
                       "policy": POLICIES[g.below(5)], "sim_seed": 1 + g.below(1 << 20), "mode": "rbkvec" if i % 2 == 0 else "rbkbag",
-                      "op": [0, 1, 2][g.below(3)]})
+                      "op": [3, 4, 0, 5, 6, 3, 1, 2][i % 8]})
     return cases
 
 
@@ -144,7 +164,7 @@ def check_reduce(res, case, sr, universe, contrib, model_ok):
     res.evaluations += 1
     res.count("runs")
     res.count(f"target-{mode}")
-    res.count(f"op-{['sum', 'max', 'xor'][op]}")
+    res.count(f"op-{OPNAMES[op]}")
     res.count(f"layout-{case['nodes']}x{case['ppn']}")
     res.count(f"buffer-{case['buffer_kb']}KB")
     res.count(f"routing-{case['routing']}")
@@ -236,13 +256,13 @@ def check_reduce(res, case, sr, universe, contrib, model_ok):
 
 
 def run_one(binary, sc, case, idx):
-    return c15.run_case(binary, sc, case, idx, mode=case["mode"], extra_args=[case["op"]])
+    return c15.run_case(binary, sc, case, idx, mode=case["mode"], extra_args=[case["op"]], vmap=VMAP[case["op"]])
 
 
 def run(tier, seed, model_ok=True):
     res = C.Result()
     res.rule = RULE
-    res.assumptions = ["the operator is associative and commutative (sum, max, xor are)", "every packed message is executed exactly once by its destination (C01; observed on the logs here)",
+    res.assumptions = ["the operator is associative and commutative (sum, max, xor, min, product mod p, and, signed max are); it need not have a neutral element", "every packed message is executed exactly once by its destination (C01; observed on the logs here)",
                        "handlers do not call barrier() (README rule)", "std::hash of the 64-bit keys is the identity (libstdc++)"]
     binary, err = C.build_harness("cache")
     if binary is None:
@@ -258,8 +278,9 @@ def run(tier, seed, model_ok=True):
         results = C.pmap(do, list(enumerate(cases)), workers=max(2, C.NCPU // 2))
     for case, sr, universe, contrib in results:
         check_reduce(res, case, sr, universe, contrib, model_ok)
-    # a disagreement hidden by an idempotent operator or a lucky schedule: same script, sum, other schedules
-    c15.search_around(res, binary, check_reduce, run_one, model_ok, force={"op": 0})
+    # a disagreement hidden by an idempotent operator or a lucky schedule: same script under other schedules, with the
+    # sum (shows lost and duplicated values) and with min over positives (shows an injected T{})
+    c15.search_around(res, binary, check_reduce, run_one, model_ok, force=[{"op": 0}, {"op": 3}])
     return res
 
 
